@@ -34,6 +34,7 @@ Print Assumptions C07_stripped_absent.
 
 Theorem C07_kept_identical : forall o st c, is_critical (c_name c) = false -> strip_keep (strip o) (c_name c) = true ->
   is_c2pa (c_name c) (c_data c) = false ->
+  cname_eqb (c_name c) name_acTL = false ->
   cname_eqb (c_name c) name_fcTL = false -> cname_eqb (c_name c) name_fdAT = false ->
   exists st', from_slice_step o st c = Ok st' /\ fs_aux st' = c :: fs_aux st /\ fs_idat st' = fs_idat st /\ fs_frames st' = fs_frames st.
 Proof. exact kept_is_recorded. Qed.
